@@ -24,6 +24,10 @@ CHECKS = {
    technique="TLA+ spec Stream (wire of segments, entry points, receiver prior state, chunking, faults): TLC exhausts the model and generates the scenarios; real (de)serialisation traces validated by TLC",
    text="TLC model-checks the stream model (composability, prefix consumption) and enumerates every scenario (object x write entry x read entry x prior receiver state x chunking; multi-object streams by simulation); each scenario and a fault sweep (truncation at every offset class, single-byte header corruption, writers failing at sampled offsets, JSON codecs) run on 29 serialisable type classes / 79 values of the real library, and the recorded sizes, counts, digests, consumed bytes, equality and error/panic/allocation outcomes must be a behaviour of the specification.",
    note="Trusted: TLC, the Stream specification, the harness' equality (re-encoding + Equal methods both ways), runtime.MemStats for allocation. Objects are built on LogN 4-6 parameters. bgv/ckks Parameters entry-point mismatch is a recorded known finding."),
+ "C11": dict(spec="Galois / GaloisMC / GaloisTrace", design="DESIGN.md §5 C11",
+   technique="TLA+ spec Galois (group of Galois elements, slot matrix actions, partial traces): TLC exhausts the group laws and the rotate-and-accumulate tree; traces of bgv/ckks rotations, sums and replications with exactly-advertised key sets validated by TLC",
+   text="TLC checks composition, inverse, discrete log, periodicity and the order-two element for M in {16..128} and that the log(n)+HW(n) accumulation tree equals the plain sum of rotations for every n<=8; the real bgv (2x8 with gap, 2x16 full ring, no-P) and ckks (full, sparse 8/2/1 slots, conjugate-invariant, no-P) evaluators perform RotateColumns/Rotate (incl. k beyond the slot count, negative, 2^40, 2^62, MaxInt64), RotateRows/Conjugate, RotateHoisted, InnerSum, RotateAndAdd and Replicate for every (batch, n) with n*batch <= slots, each on an evaluator whose key set holds exactly the advertised Galois keys; TLC recomputes every output slot and checks requested keys are a subset of advertised ones.",
+   note="Trusted: TLC, the Galois specification, the recording key set, math/big reduction of huge k. Trace() is not covered. On sets without P the keys use a base-two decomposition."),
  "C14": dict(spec="MPKeyGen / MPKeyGenGen / MPKeyGenTrace", design="DESIGN.md §5 C14",
    technique="TLA+ spec MPKeyGen (shares as member sets with tags, digest-functional aggregation): TLC enumerates all aggregation schedules; replay on the multiparty protocols; TLC trace validation",
    text="TLC enumerates every aggregation schedule for 3 and 4 parties (all merge orders, operand orders, in-place or fresh outputs, serialisation hops; 5-8 parties by simulation) and checks the share algebra; each schedule is replayed on the real public-key, evaluation-key, Galois-key and two-round relinearisation-key protocols for seven key parameterisations (incl. unequal prime sizes with base-2 digits, two P primes, no P); the trace must show digests that depend only on the member set, refusals of mismatched shares, and a finalised key that works under the ideal secret with bounded noise.",
